@@ -110,6 +110,16 @@ def library():
     hid = lambda r, s: 5 * r + s
     sheet4_v = [[4 * r, 4 * s, 4 * ((r + 2 * s) % 3 == 0)] for r in range(5) for s in range(5)]
     sheet4_f = quads([[hid(r, s), hid(r + 1, s), hid(r + 1, s + 1), hid(r, s + 1)] for r in range(4) for s in range(4)])
+    # coincident but distinct vertices: two boxes face to face assembled by concatenation, and
+    # un-merged triangle soups (every face with private vertices)
+    cube_next = [[x + 4, y, z] for x, y, z in cube_v]
+    boxes_v, boxes_f = join([(cube_v, outward(cube_v, cube_f)), (cube_next, outward(cube_next, cube_f))])
+
+    def soup(v, f):
+        return [list(v[x]) for t in f for x in t], [[3 * k, 3 * k + 1, 3 * k + 2] for k in range(len(f))]
+
+    tsoup_v, tsoup_f = soup(tet_v, outward(tet_v, tet_f))
+    csoup_v, csoup_f = soup(cube_v, outward(cube_v, cube_f))
     cube_shift = [[x + 8, y + 8, z] for x, y, z in cube_v]
     two_v, two_f = join([(tet_v, outward(tet_v, tet_f)), (cube_shift, outward(cube_shift, cube_f))])
     return {
@@ -123,10 +133,18 @@ def library():
         "torus3x3": (tor_v, outward(tor_v, tor_f), True),
         "sheet3x3": (sheet_v, sheet_f, False),
         "sheet4x4": (sheet4_v, sheet4_f, False),
+        "boxes_face_to_face": (boxes_v, boxes_f, True),
+        "tetrahedron_soup": (tsoup_v, tsoup_f, False),
+        "cube_soup": (csoup_v, csoup_f, False),
     }
 
 
 LIB = library()
+COINCIDENT = ("boxes_face_to_face", "tetrahedron_soup", "cube_soup")      # only handed to subdivide
+SURFACES = tuple(n for n in LIB if n not in COINCIDENT)
+# histories before fill_holes: what is read (and so cached) before invert(); 0 = no history
+HISTORIES = {1: "invert", 2: "warm_up+invert", 3: "edges+invert", 4: "is_watertight+invert",
+             5: "face_normals+edges_sorted+invert"}
 
 
 def present(name, pres):
@@ -201,13 +219,13 @@ def face_rows(F):
     return F.astype(np.int64).tolist()
 
 
-NOREP = {"has": False, "wt": False, "wc": False, "eul": 0, "vol6": 0, "vol6ok": False, "nrm": []}
+NOREP = {"has": False, "wt": False, "wc": False, "eul": 0, "vol6": 0, "vol6ok": False, "novol": False, "nrm": []}
 
 
 def reported(m, den, normals):
     """What the result object reports about itself (the observation points of the property)."""
     r = {"has": True, "wt": bool(m.is_watertight), "wc": bool(m.is_winding_consistent),
-         "eul": int(m.euler_number), "vol6": 0, "vol6ok": False, "nrm": []}
+         "eul": int(m.euler_number), "vol6": 0, "vol6ok": False, "novol": False, "nrm": []}
     x = float(m.volume) * 6.0 * den ** 3
     if np.isfinite(x) and abs(x - round(x)) <= 1e-9 * max(1.0, abs(x)) and abs(x) < INT_LIMIT:
         r["vol6"], r["vol6ok"] = int(round(x)), True
@@ -283,6 +301,15 @@ def observe(trimesh, it):
             flips = set(it["flips"])
             f0 = [rewound(t, it["style"] + k) if k in flips else list(t) for k, t in enumerate(f)]
             rec["f0"], rec["api"], rec["flips"] = f0, it["api"], sorted(flips)
+            k2 = it.get("tiny_k", 0)
+            if k2:
+                # one body (the smallest by face count) lives at lattice * 2^-k2: exact in doubles; its
+                # coordinates are multiplied back below, so TLC sees the unscaled lattice surface
+                body = min(body_face_sets(f), key=len)
+                vs = np.ones(len(v))
+                vs[sorted({x for kf in body for x in f[kf]})] = 2.0 ** k2
+                V = V / vs[:, None]
+                rec["tiny_k"] = k2
             m = fresh(f0)
             if it["warm"]:
                 warm_up(m)
@@ -301,16 +328,40 @@ def observe(trimesh, it):
                 repair.fix_inversion(m, multibody=False)
             else:
                 raise MachineryError("api " + api)
-            if put_result(m.vertices, m.faces):
+            out_v = np.asarray(m.vertices, dtype=np.float64)
+            if k2 and out_v.shape == V.shape:
+                out_v = out_v * vs[:, None]
+            if put_result(out_v, m.faces):
                 rec["rep"] = reported(m, rec["den"], normals=True)
+                rec["rep"]["novol"] = bool(k2)
         elif op == "fill":
             rec["fb"] = f
             removed = sorted(it["removed"])
             f0 = [list(t) for k, t in enumerate(f) if k not in removed]
             rec["f0"], rec["removed"], rec["ret"] = f0, removed, False
+            rec["sgn"], rec["pre_ok"], rec["hist"] = 1, True, HISTORIES.get(it.get("hist", 0), "")
             m = fresh(f0)
             if it["warm"]:
                 warm_up(m)
+            hist = it.get("hist", 0)
+            if hist:
+                # a history before the call: reads that fill the cache, then invert(); the recorded
+                # pre-mesh is the inverted one (every index triple reversed)
+                if hist == 2:
+                    warm_up(m)
+                elif hist == 3:
+                    m.edges
+                elif hist == 4:
+                    m.is_watertight
+                elif hist == 5:
+                    m.face_normals
+                    m.edges_sorted
+                m.invert()
+                rec["fb"] = [t[::-1] for t in f]
+                rec["f0"] = [t[::-1] for t in f0]
+                rec["sgn"] = -1
+                rec["pre_ok"] = bool(np.asarray(m.faces).tolist() == rec["f0"]
+                                     and np.asarray(m.vertices).tolist() == V.tolist())
             ret = m.fill_holes()
             if not isinstance(ret, (bool, np.bool_)):
                 rec["off"] = "return_value"
@@ -495,6 +546,31 @@ def work_items(tier):
     for k, flips in enumerate(sampled(18, 300 if big else 40)):
         add(op="fix", name="sheet3x3", pres=k % 5, flips=flips, style=k, api=FIX_APIS[k % 4], warm=k % 2)
 
+    # one body far below any merge tolerance (lattice tetrahedron * 2^-10 / 2^-12, |volume| ~ 1e-8 / 1e-10)
+    # next to a normal-size cube: whole bodies inverted, and seeded subsets
+    for k2 in (10, 12):
+        for pres in range(4 if big else 2):
+            v, f, _ = present("tet_and_cube", pres)
+            comps = body_face_sets(f)
+            for pick in subsets(len(comps)):
+                flips = sorted(x for c in pick for x in comps[c])
+                for k, api in enumerate(("fix_normals_auto", "fix_normals_multibody", "fix_inversion_multibody")):
+                    add(op="fix", name="tet_and_cube", pres=pres, flips=flips, style=pres + k, api=api,
+                        warm=(pres + k) % 2, tiny_k=k2)
+        for k, flips in enumerate(sampled(16, 200 if big else 24)):
+            add(op="fix", name="tet_and_cube", pres=k % 5, flips=flips, style=k, tiny_k=k2,
+                api=("fix_normals_auto", "fix_normals_multibody")[k % 2], warm=(k // 2) % 2)
+
+    # ---- hole filling after a history: (reads that fill the cache) -> invert() -> fill_holes()
+    for name in ("skew_tetrahedron", "octahedron", "cube", "tet_and_cube", "torus3x3", "sheet4x4"):
+        for pres in range(3 if big else 1):
+            v, f, closed = present(name, pres)
+            k = 0
+            for removed in [[a] for a in range(len(f))] + [list(p) for p in adjacent_pairs(f)]:
+                if manifold_after_removal(f, removed):
+                    add(op="fill", name=name, pres=pres, removed=removed, warm=0, hist=1 + (k + pres) % len(HISTORIES))
+                    k += 1
+
     # ---- hole filling: every single face, every adjacent pair (quad hole); thorough: every pair
     for name in ("tetrahedron", "skew_tetrahedron", "octahedron", "cube", "tet_and_cube", "torus3x3", "sheet4x4"):
         for pres in range(8 if big else 3):
@@ -531,7 +607,12 @@ def work_items(tier):
             for k, sel in enumerate(subsets(n)):
                 add(op="subdivide", name=name, pres=0, sel=sel, depth=1, api=("mesh", "func")[k % 2], warm=(k // 2) % 2)
             exhaustive.append("subdivide(face_index): all 2^%d face subsets of %s" % (n, name))
-    for name, cnt in (("cube", 150), ("tet_and_cube", 40), ("torus3x3", 40), ("sheet3x3", 40), ("octahedron", 40)):
+    for k, sel in enumerate(subsets(4)):          # un-merged soup: every face subset, both entry points
+        for api in ("mesh", "func"):
+            add(op="subdivide", name="tetrahedron_soup", pres=k % 2, sel=sel, depth=1, api=api, warm=k % 2)
+    exhaustive.append("subdivide(face_index): all 2^4 face subsets of tetrahedron_soup")
+    for name, cnt in (("cube", 150), ("tet_and_cube", 40), ("torus3x3", 40), ("sheet3x3", 40), ("octahedron", 40),
+                      ("boxes_face_to_face", 40), ("cube_soup", 40)):
         n = len(LIB[name][1])
         for k in range(cnt * (6 if big else 1)):
             p = (0.5, 0.2, 0.8)[k % 3]
@@ -555,7 +636,7 @@ def work_items(tier):
     exhaustive.append("subdivide_to_size: %d bounds x %d iteration caps per surface" % (len(BOUNDS), len(MAX_ITERS)))
 
     # ---- loop subdivision: topology only
-    for name in LIB:
+    for name in SURFACES:
         for it_ in (1, 2):
             for pres in range(3 if big else 1):
                 if it_ == 2 and len(LIB[name][1]) > 12 and not big:
@@ -619,17 +700,21 @@ def stats_of(cases):
             add("fix_pre_all_faces_rewound", len(c["flips"]) == len(c["f0"]))
             add("fix_result_differs_from_pre", c["f1"] != c["f0"])
             add("fix_cache_warm", c["item"]["warm"])
+            add("fix_one_body_below_merge_tolerance", "tiny_k" in c)
         elif op == "fill":
             add("fill_triangle_hole", len(c["removed"]) == 1)
             add("fill_two_faces_removed", len(c["removed"]) == 2)
             add("fill_faces_added", len(c["f1"]) > len(c["f0"]))
             add("fill_returned_true", c["ret"])
+            add("fill_after_invert_history", c["sgn"] == -1)
+            add("fill_after_read_then_invert", c["sgn"] == -1 and c["hist"] != "invert")
         elif op == "subdivide":
             add("subdivide_all_faces", len(c["sel"]) == len(c["f0"]))
             add("subdivide_proper_subset", 0 < len(c["sel"]) < len(c["f0"]))
             add("subdivide_empty_subset", len(c["sel"]) == 0)
             add("subdivide_second_round", c["item"]["depth"] == 2)
             add("subdivide_api:" + c["api"])
+            add("subdivide_coincident_vertices", c["name"] in COINCIDENT)
         elif op == "tosize":
             add("tosize_refused", c["refused"])
             add("tosize_returned", not c["refused"])
@@ -643,7 +728,7 @@ def stats_of(cases):
 
 
 def brief(c):
-    keep = ("op", "name", "pres", "api", "flips", "removed", "sel", "me_n", "me_d", "max_iter", "ri", "refused",
+    keep = ("op", "name", "pres", "api", "flips", "tiny_k", "removed", "hist", "sel", "me_n", "me_d", "max_iter", "ri", "refused",
             "ret", "iterations", "den", "exc", "off")
     out = {k: c[k] for k in keep if k in c}
     out["v0"], out["f0"] = c["v0"], c["f0"]
@@ -726,7 +811,9 @@ def main(argv):
         need = {"fix_pre_winding_broken": 500, "fix_result_differs_from_pre": 500, "fill_triangle_hole": 50,
                 "fill_two_faces_removed": 50, "fill_faces_added": 100, "subdivide_all_faces": 20,
                 "subdivide_proper_subset": 200, "tosize_refused": 20, "tosize_refined": 40,
-                "tosize_returned_with_index": 20, "tosize_halved_coordinates": 5, "records_loop": 8}
+                "tosize_returned_with_index": 20, "tosize_halved_coordinates": 5, "records_loop": 8,
+                "fix_one_body_below_merge_tolerance": 50, "fill_after_read_then_invert": 60,
+                "subdivide_coincident_vertices": 60}
         low = {k: st.get(k, 0) for k, n in need.items() if st.get(k, 0) < n}
         if low:
             raise MachineryError("enumeration nearly empty: %s" % low)
